@@ -273,6 +273,19 @@ def forwardExisting (s : State) (id : Nat) (payload : Bytes) (now : Nat) : State
         finishForward s2 id f2
     | .closing => dropDatagram s .shed
 
+/-- the flow parked at admission: `UdpFlow::new` + the buffered first datagram -/
+def newFlow (src : Addr) (cfg : Cfg) (payload : Bytes) (now : Nat) : Flow :=
+  { Flow.new src cfg now with pending := some payload }
+
+/-- the admission path of `on_client_datagram` -/
+def admitFlow (s : State) (src : Addr) (payload : Bytes) (now : Nat) : State :=
+  let f := newFlow src s.cluster payload now
+  let r := slabInsert s f
+  let s2 := { r.1 with table := KMap.set r.1.table (flowKey src s.cluster.withPort) r.2 }
+  let s3 := push (push s2 (.metric .flowCreated))
+              (.selectBackend r.2 s.cluster.cluster (affKey f.client f.cfg.withPort))
+  reschedule s3
+
 /-- `on_client_datagram` -/
 def onClient (s : State) (src : Addr) (payload : Bytes) (now : Nat) : State :=
   if payload.length > s.maxRx then dropDatagram s .truncated
@@ -285,13 +298,7 @@ def onClient (s : State) (src : Addr) (payload : Bytes) (now : Nat) : State :=
     | none =>
       if s.draining then dropDatagram s .shed
       else if s.len ≥ s.maxFlows then dropDatagram (push s (.metric .flowShed)) .shed
-      else
-        let f := { Flow.new src s.cluster now with pending := some payload }
-        let (s1, id) := slabInsert s f
-        let s2 := { s1 with table := KMap.set s1.table key id }
-        let s3 := push (push s2 (.metric .flowCreated))
-                    (.selectBackend id s.cluster.cluster (affKey f.client f.cfg.withPort))
-        reschedule s3
+      else admitFlow s src payload now
 
 /-- `on_backend_resolved` -/
 def onResolved (s : State) (id : Nat) (bid : String) (addr : Addr) (now : Nat) : State :=
